@@ -91,6 +91,15 @@ pub fn run(tier: Tier, seed: u64) -> i32 {
     });
     report.space("lengths {55,56,63,64,65,119,127,128,129,1000} with all ordered 4-tuples of cut points from {0,1,63,64,65,n-1,n}");
 
+    // (2b) every total length 0..=300 with three uneven distributions
+    (0..=300usize).collect::<Vec<_>>().par_iter().for_each(|&n| {
+        let data = refmodel::ctr_bytes(seed, "c17-len", n);
+        for c in [[n / 7, n / 3, n / 2, n - n / 5], [0, 0, n, n], [n.min(1), n.min(2), n.min(3), n]] {
+            check_split(&report, &data, c, &salt, &key);
+        }
+        evals.fetch_add(3, Ordering::Relaxed);
+    });
+
     // (3) sensitivity: every single-byte change of every file, the salt and the key changes the result (and still equals the reference)
     let files: [Vec<u8>; 5] = [
         refmodel::ctr_bytes(seed, "f0", 7),
